@@ -324,8 +324,57 @@ class Analysis(object):
             if isinstance(n, ast.Name):
                 env[n.id] = iv if isinstance(target, ast.Name) else Iv(None, None, it.wire)
 
+    def _star_args(self, a, env):
+        """*self.<attr>: a record of the object's configuration (a named tuple built as K(minimum, maximum, ...) in one of its methods): one argument per field, each the
+        configuration attribute of that name when the object has one"""
+        v = a.value
+        cls = getattr(self.f, '_cls', None)
+        if not (isinstance(v, ast.Attribute) and isinstance(v.value, ast.Name) and v.value.id == 'self' and cls is not None):
+            return None
+        def fields(call_args):
+            out = []
+            for x in call_args:
+                if isinstance(x, ast.Name):
+                    out.append(self.ev(ast.Attribute(value=ast.Name(id='self', ctx=ast.Load()), attr=x.id, ctx=ast.Load()), env))
+                elif isinstance(x, ast.Attribute):
+                    out.append(self.ev(x, env))
+                else:
+                    return None
+            return out
+        pr = cls.find_method(v.attr)
+        if pr is not None and any(isinstance(d, ast.Name) and d.id == 'property' for d in pr[1].decorator_list):
+            rets = [n for n in walk_no_nested(pr[1]) if isinstance(n, ast.Return) and n.value is not None]
+            if len(rets) == 1 and isinstance(rets[0].value, ast.Call) and rets[0].value.args and not rets[0].value.keywords:
+                return fields(rets[0].value.args)
+            return None
+        for k in cls.mro():
+            for g in k.methods.values():
+                for n in walk_no_nested(g):
+                    if isinstance(n, ast.Assign) and isinstance(n.value, ast.Call) and n.value.args and not n.value.keywords \
+                            and any(isinstance(t, ast.Attribute) and isinstance(t.value, ast.Name) and t.value.id == 'self' and t.attr == v.attr for t in n.targets):
+                        out = []
+                        for x in n.value.args:
+                            if isinstance(x, ast.Name):
+                                out.append(self.ev(ast.Attribute(value=ast.Name(id='self', ctx=ast.Load()), attr=x.id, ctx=ast.Load()), env))
+                            elif isinstance(x, ast.Attribute):
+                                out.append(self.ev(x, env))
+                            else:
+                                return None
+                        return out
+        return None
+
     def call(self, e, env):
-        args = [self.ev(a, env) for a in e.args]
+        args = []
+        for a in e.args:
+            if isinstance(a, ast.Starred):
+                ex = self._star_args(a, env)
+                if ex is None:
+                    self.ev(a.value, env)
+                    args.append(TOP)
+                else:
+                    args.extend(ex)
+            else:
+                args.append(self.ev(a, env))
         for k in e.keywords:
             self.ev(k.value, env)
         w = any(a.wire for a in args)
